@@ -420,6 +420,7 @@ func corr(seed uint64, n, exh int) {
 	corrInter(rng, n/3+2)
 	corrSparse(rng, n/4+2)
 	corrEncodeFileSW(rng, n/2+2)
+	corrLazyWriter(rng, n/2+4)
 }
 
 // ---------------------------------------------------------------- search: the property itself
